@@ -79,8 +79,12 @@ Definition buf_append (buf : gmap N frame) (parts : gmap N frame) : gmap N frame
 (* a leaseholder commits: its buffered entries are appended, key by key, in arrival order *)
 Definition commit_node (st : gmap N series) (buf : frame) : gmap N series :=
   foldl (fun m e => <[e.1 := default [] (m !! e.1) ++ e.2]> m) st buf.
+(* every leaseholder that has a buffer commits it to its own store *)
 Definition commit_all (store : gmap N (gmap N series)) (buf : gmap N frame) : gmap N (gmap N series) :=
-  map_fold (fun n b acc => <[n := commit_node (default ∅ (acc !! n)) b]> acc) store buf.
+  merge (fun st b => match b with
+                     | Some b => Some (commit_node (default ∅ st) b)
+                     | None => st
+                     end) store buf.
 
 Definition dstep (c : cluster) (o : dop) : cluster * dres :=
   match o with
